@@ -134,7 +134,8 @@ fn structure(rng: &mut Rng, cols: &Columns) -> Vec<Row> {
             let het = matches!(comp.as_str(), "HOH" | "ZN" | "NAG" | "HEM");
             // label_seq_id is '.' for hetero groups as in deposited files (then the author number is there)
             let lseq = if cols.aseq && (het || rng.chance(1, 6)) { None } else { Some(ri as i64 + 1) };
-            let aseq = if cols.aseq { Some(resnum) } else { None };
+            // the author number, when the column is there; now and then a row leaves it out ('.' / '?') and the label number counts
+            let aseq = if cols.aseq && !(!het && rng.chance(1, 5)) { Some(resnum) } else { None };
             let lseq = if aseq.is_none() { Some(resnum) } else { lseq };
             let alts: Vec<Option<String>> = if cols.alt && rng.chance(1, 3) {
                 vec![None, Some("A".into()), Some("B".into())]
